@@ -5,7 +5,7 @@ ROOT = os.path.dirname(os.path.dirname(os.path.abspath(__file__)))
 
 CLAIMS = {
  "C01": dict(
-  text="Structural necessary conditions of 'shaping is total', decided on all paths of all functions: every recursive SCC has a re-derived termination argument and recursion in loops a shared work budget (R-REC); every writer of Buffer.Info re-sizes Buffer.Pos or is confined to an output-mode bracket that is closed on all paths, and the re-sync takes its length from len(Info) (R-SYNC); the operation/length budgets are initialised from the input length before any reader runs and tested in the lookup loop (R-BUDGET); integer divisors are provably non-zero (R-DIV); every array access indexed by a Coverage index is bounded by a test in its function or by a loader comparison of len(<that field>) with <that coverage>.Len(), matched by field identity, one obligation per call site when the array is a parameter (R-COVIDX, 22 accesses); and the slice accesses of package harfbuzz whose bounds were locally derivable when the set was frozen (132 function/field keys, among them the tests on font-supplied lookup, mark-set and nested-lookup indices) are still derivable (R-IDX, a regression rule). Does not decide cluster accounting, loop termination, or index arithmetic that rests on buffer invariants. (R-NIL) no method is invoked on an interface field of the table structures that a NULL offset leaves nil: the NULL-able fields are found in the parsers (stores control-dependent on `offset != 0`), closed under field copies, and every invoke site whose receiver may be such a field — through parameters to all callers, captured variables, call results — is dominated by a nil test of that field, or the field is replaced by an empty table in a fill function through which every parsed lookup is handed out.",
+  text="Structural necessary conditions of 'shaping is total', decided on all paths of all functions: every recursive SCC has a re-derived termination argument and recursion in loops a shared work budget (R-REC); every writer of Buffer.Info re-sizes Buffer.Pos or is confined to an output-mode bracket that is closed on all paths, and the re-sync takes its length from len(Info) (R-SYNC); the operation/length budgets are initialised from the input length before any reader runs and tested in the lookup loop (R-BUDGET); integer divisors are provably non-zero (R-DIV); every array access indexed by a Coverage index is bounded by a test in its function or by a loader comparison of len(<that field>) with <that coverage>.Len(), matched by field identity, one obligation per call site when the array is a parameter (R-COVIDX, 22 accesses); and the slice accesses of package harfbuzz whose bounds were locally derivable when the set was frozen (132 function/field keys, among them the tests on font-supplied lookup, mark-set and nested-lookup indices) are still derivable (R-IDX, a regression rule). Does not decide cluster accounting, loop termination, or index arithmetic that rests on buffer invariants. (R-NIL) no method is invoked on an interface field of the table structures that a NULL offset leaves nil: the NULL-able fields are found in the parsers (stores control-dependent on `offset != 0`), closed under field copies, and every invoke site whose receiver may be such a field — through parameters to all callers, captured variables, call results — is dominated by a nil test of that field, or the field is replaced by an empty table in a fill function through which every parsed lookup is handed out. (R-FONTIDX) in the shaper an index read directly from a field of a font table is compared with an upper bound on the way to every array access, or is one the loader replaces when out of range; (R-COVIDX/resolved) the lookup sanitizers are dispatched, directly or through a helper, on the subtable as it is after extensions are resolved.",
   note="VTA call graph over-approximates dynamic calls; stdlib and x/text are not analysed; guards are recognised as SSA comparisons of the counter with a bound",
   technique="static analysis: call-graph SCC inventory + CFG path rules (edge dominance, must-precede/must-follow) on go/ssa + backward value-origin analysis of interface receivers with dominance of nil tests (R-NIL)",
   ref="DESIGN.md §4 C01"),
@@ -25,12 +25,12 @@ CLAIMS = {
   technique="static analysis: field-effect fixpoint (exposed-read/must-write) on go/ssa + constant evaluation of table literals",
   ref="DESIGN.md §4 C06"),
  "C07": dict(
-  text="Three clauses of the itemization property: (history independence) every field of shaping.Segmenter that Split may read before writing is classified (the pools are read by reset only to drop stale pointers); (frame) no function reachable from Split other than reset assigns Input.Text, Input.Size or Input.FontFeatures; (table preconditions) pairedDelims is strictly increasing and ScriptRanges sorted and disjoint, as the two bisections require. Exact cover, level parity, script uniformity and face resolution are NOT decided.",
+  text="Three clauses of the itemization property: (history independence) every field of shaping.Segmenter that Split may read before writing is classified (the pools are read by reset only to drop stale pointers); (frame) no function reachable from Split other than reset assigns Input.Text, Input.Size or Input.FontFeatures; (table preconditions) pairedDelims is strictly increasing and ScriptRanges sorted and disjoint, as the two bisections require. Exact cover, level parity, script uniformity and face resolution are NOT decided. (R-BIDI/par) every caller of bidi.Paragraph.SetString uses the consumed count or cuts the text at the paragraph separators itself, so that the text after a newline gets its own levels.",
   note="field-based effects over the VTA call graph; x/text bidi.Paragraph.SetString trusted as a full reset",
   technique="static analysis: field-effect fixpoint + who-may-write check over call-graph reachability + constant evaluation of tables",
   ref="DESIGN.md §4 C07"),
  "C08": dict(
-  text="Two clauses of the visual-order property: (R-OWN) only computeBidiOrdering and swapVisualOrder store Output.VisualIndex in package shaping, and swapVisualOrder's two stores are a transposition of the same two locations (so an ordering that is a permutation stays one); (R-ORDER) in postProcessLine every append to the line is followed on all paths by computeBidiOrdering and every read of VisualIndex is preceded by it. Agreement with rule L2 of UAX #9 for embedding levels is NOT decided: Output carries only the level parity, so the level-2 mis-ordering the property mentions is invisible to these rules.",
+  text="Two clauses of the visual-order property: (R-OWN) only computeBidiOrdering and swapVisualOrder store Output.VisualIndex in package shaping, and swapVisualOrder's two stores are a transposition of the same two locations (so an ordering that is a permutation stays one); (R-ORDER) in postProcessLine every append to the line is followed on all paths by computeBidiOrdering and every read of VisualIndex is preceded by it. Agreement with rule L2 of UAX #9 for embedding levels is NOT decided: Output carries only the level parity, so the level-2 mis-ordering the property mentions is invisible to these rules. (R-TRIM, R-TRIM/fast) the trimmed run is selected by comparing VisualIndex values, and the line built by the single run shortcut of WrapParagraph is returned only after the trailing whitespace trim unless the trim is disabled.",
   note="who-may-write by field identity; exchange recognised on SSA address expressions",
   technique="static analysis: who-may-write check + CFG must-follow/must-precede on go/ssa",
   ref="DESIGN.md §4 C08"),
@@ -45,12 +45,12 @@ CLAIMS = {
   technique="static analysis: CFG must-follow with propagation to callers, must-precede under an assumed flag on go/ssa",
   ref="DESIGN.md §4 C12"),
  "C09": dict(
-  text="Structural necessary conditions of 'font loading is total', decided over the whole module: (R-REC) every recursive SCC has a re-derived termination argument and recursion in loops a shared work budget; (R-ALLOC) every make in the font-reading packages whose size has a 32/64-bit file value in its backward slice is guarded by a comparison on that value whose other edge returns a definite error (the capacity idiom is not a guard); (R-COUNT) every signed count parameter that sizes a make without a sign test receives, at every in-module call site, an argument that is provably non-negative (unsigned conversions, len/cap, guarded differences, clamped phis, fields and callee results with the same property); (R-GEN) in the five font-reading packages every index, slice and binary.*.UintN access to a []byte follows, by linear arithmetic over the length tests that dominate it, from those tests (upper bounds and non-negative lower bounds; 331 functions decided, 35 listed with a reason as not claimed because the argument is non-linear or spans sibling functions); (R-LOOP) data-driven loops have a counted exit; (R-DIV) divisors are provably non-zero. A guard whose operand is computed by a wrapping 32-bit operation does not count unless the allocation is sized by the wrapped value. (R-IDX) the accesses to slices of any element type in hand-written font code whose bounds were locally derivable when the set was frozen (231 function/field keys) are still derivable. The two findings that were recorded as known (composite-glyph fan-out, findTableBuffer) have been repaired; their reverts are part of the thorough tier. Index panics on parsed (non-byte) structures and general loop termination are NOT decided. (R-NIL) no method is invoked on an interface field of the table structures that a NULL offset leaves nil: the NULL-able fields are found in the parsers (stores control-dependent on `offset != 0`), closed under field copies, and every invoke site whose receiver may be such a field — through parameters to all callers, captured variables, call results — is dominated by a nil test of that field, or the field is replaced by an empty table in a fill function through which every parsed lookup is handed out. Inside readers the length of every make is provably non-negative. (R-PROGRESS) parse loops that advance by the length a nested reader returns, for a 32-bit count of the file, advance by at least one byte on every successful return.",
+  text="Structural necessary conditions of 'font loading is total', decided over the whole module: (R-REC) every recursive SCC has a re-derived termination argument and recursion in loops a shared work budget; (R-ALLOC) every make in the font-reading packages whose size has a 32/64-bit file value in its backward slice is guarded by a comparison on that value whose other edge returns a definite error (the capacity idiom is not a guard); (R-COUNT) every signed count parameter that sizes a make without a sign test receives, at every in-module call site, an argument that is provably non-negative (unsigned conversions, len/cap, guarded differences, clamped phis, fields and callee results with the same property); (R-GEN) in the five font-reading packages every index, slice and binary.*.UintN access to a []byte follows, by linear arithmetic over the length tests that dominate it, from those tests (upper bounds and non-negative lower bounds; 331 functions decided, 35 listed with a reason as not claimed because the argument is non-linear or spans sibling functions); (R-LOOP) data-driven loops have a counted exit; (R-DIV) divisors are provably non-zero. A guard whose operand is computed by a wrapping 32-bit operation does not count unless the allocation is sized by the wrapped value. (R-IDX) the accesses to slices of any element type in hand-written font code whose bounds were locally derivable when the set was frozen (231 function/field keys) are still derivable. The two findings that were recorded as known (composite-glyph fan-out, findTableBuffer) have been repaired; their reverts are part of the thorough tier. Index panics on parsed (non-byte) structures and general loop termination are NOT decided. (R-NIL) no method is invoked on an interface field of the table structures that a NULL offset leaves nil: the NULL-able fields are found in the parsers (stores control-dependent on `offset != 0`), closed under field copies, and every invoke site whose receiver may be such a field — through parameters to all callers, captured variables, call results — is dominated by a nil test of that field, or the field is replaced by an empty table in a fill function through which every parsed lookup is handed out. Inside readers the length of every make is provably non-negative. (R-PROGRESS) parse loops that advance by the length a nested reader returns, for a 32-bit count of the file, advance by at least one byte on every successful return. (R-OPBUDGET) the charstring interpreter counts every dispatched operator against a constant bound that fails when exceeded, and every iteration that dispatched an operator carries the incremented count.",
   note="64-bit int assumed for unsigned-to-int conversions; 16-bit sizes are bounded by type; stdlib decoders (zlib, png, ...) trusted",
   technique="static analysis: call-graph SCC inventory, backward value slices and CFG edge-dominance on go/ssa, interprocedural sign analysis, linear length-fact prover (P-LIN) over dominating comparisons + backward value-origin analysis of interface receivers with dominance of nil tests (R-NIL)",
   ref="DESIGN.md §4 C09"),
  "C13": dict(
-  text="Structural necessary conditions of 'reusable objects never leak state', decided for the caches of the reusable objects: (R-KEY/fields) every leaf of the shape-plan cache key that shapePlan.init fills from an input not covered by the map key is read by shapePlan.equal (data/control dependence of each stored value on each parameter, through callees); (R-KEY/projection) the key of the shaper's font cache is not a strict projection of an argument that the constructor of the cached value captures; (R-INV) every function outside the cached computation that may write a field read by Face.glyphExtentsRaw resets the extents cache on all paths, up to the exported API. Reset completeness of scratch state (R-STATE) is reported separately in the evidence when built. Equality of results with a fresh object in general is not decided.",
+  text="Structural necessary conditions of 'reusable objects never leak state', decided for the caches of the reusable objects: (R-KEY/fields) every leaf of the shape-plan cache key that shapePlan.init fills from an input not covered by the map key is read by shapePlan.equal (data/control dependence of each stored value on each parameter, through callees); (R-KEY/projection) the key of the shaper's font cache is not a strict projection of an argument that the constructor of the cached value captures; (R-INV) every function outside the cached computation that may write a field read by Face.glyphExtentsRaw resets the extents cache on all paths, up to the exported API. Reset completeness of scratch state (R-STATE) is reported separately in the evidence when built. Equality of results with a fresh object in general is not decided. (R-STALE) kept storage is re-extended in place past its length only where the exposed elements are overwritten whole or for three reviewed fields; (R-STATE/array) both elements of Buffer.context are reset on every path through Buffer.Clear; (R-KEY/globals) package-level options read while a plan is built are part of the plan key.",
   note="field-based effects (one abstract object per type), VTA call graph; dependence analysis is scoped to the key constructor and its callees; classification tables for exempt fields carry one-line reasons in sa/c13.go",
   technique="static analysis: data/control-dependence (P-ORG) of key fields, field-effect sets and CFG must-follow/must-precede of invalidators on go/ssa",
   ref="DESIGN.md §4 C13"),
@@ -65,7 +65,7 @@ CLAIMS = {
   technique="static analysis: dataflow chain (SSA def-use) and must-precede on go/ssa",
   ref="DESIGN.md §4 C15"),
  "C16": dict(
-  text="The crash/corruption clause of the font-index property, decided for every reader of the cache format: (R-GEN) in each deserialize* function of fontscan every index, slice and binary.*.UintN access to the input bytes follows, by linear arithmetic, from the length tests that dominate it (failing edges of comparisons, loop invariants, lengths of made slices, `read <= len(arg)` post-conditions of nested readers, constant length preconditions of helpers checked at every call site), so a truncated or corrupted cache yields an error and not a panic; (R-ERR) the error of every deserialize* call is returned or tested, the single deliberate discard feeding only a rescan. Round-trip equality of writer and reader, and 'incremental refresh equals a from-scratch scan' over file-system histories, are NOT decided (behaviour over an external mutable world). And one structural necessary condition of the round-trip clause: (R-LAYOUT) each serialize* function and its deserialize* sibling (11 pairs; every codec-named function of fontscan must be in the pair table) go through the same sequence of layout items — fixed-width integers, single bytes, raw runs, nested records — with the same widths, constant offsets and strides (named constants folded), loop nesting and struct field. Values, clamping and lengths of the round trip are not decided.",
+  text="The crash/corruption clause of the font-index property, decided for every reader of the cache format: (R-GEN) in each deserialize* function of fontscan every index, slice and binary.*.UintN access to the input bytes follows, by linear arithmetic, from the length tests that dominate it (failing edges of comparisons, loop invariants, lengths of made slices, `read <= len(arg)` post-conditions of nested readers, constant length preconditions of helpers checked at every call site), so a truncated or corrupted cache yields an error and not a panic; (R-ERR) the error of every deserialize* call is returned or tested, the single deliberate discard feeding only a rescan. Round-trip equality of writer and reader, and 'incremental refresh equals a from-scratch scan' over file-system histories, are NOT decided (behaviour over an external mutable world). And one structural necessary condition of the round-trip clause: (R-LAYOUT) each serialize* function and its deserialize* sibling (11 pairs; every codec-named function of fontscan must be in the pair table) go through the same sequence of layout items — fixed-width integers, single bytes, raw runs, nested records — with the same widths, constant offsets and strides (named constants folded), loop nesting and struct field. Values, clamping and lengths of the round trip are not decided. (R-STAMP) every FileInfo reaching the time stamp that keys scan reuse comes from a stat that follows symbolic links, or from lstat only where the entry was tested not to be a link; (R-DRAIN) the index reader returns success only after the gzip stream was read to its end with the error tested, so that its checksum is verified. Refresh-versus-rescan over file-system histories is otherwise not decided.",
   note="integer overflow of offset arithmetic is not modelled (64-bit int); compress/gzip and bytes.Buffer trusted; readers are recognised by name (deserialize*), with an instance floor",
   technique="static analysis: linear length-fact prover (P-LIN) over dominating comparisons on go/ssa + error-use check at call sites + writer/reader layout-sequence comparison on the type-checked syntax tree (sibling cross-check)",
   ref="DESIGN.md §4 C16"),
